@@ -55,6 +55,7 @@ RoundBad(o) ==
   ELSE IF o.back_t # o.trace \/ o.back_s # o.span THEN "from-str"
   ELSE IF o.ser_t # "\"" \o o.trace \o "\"" \/ o.ser_s # "\"" \o o.span \o "\"" THEN "serde-serialize"
   ELSE IF o.de_t # o.trace \/ o.de_s # o.span THEN "serde-deserialize"
+  ELSE IF "mp_ok" \in DOMAIN o /\ ~o.mp_ok THEN "serde-binary-format"
   ELSE "ok"
 
 \* ---- C19
@@ -82,7 +83,7 @@ MacroBad(o) ==
   ELSE IF o.noparent.log # o.plain.log \/ o.noparent.out # o.plain.out THEN "outcome-differs-without-local-parent"
   ELSE IF o.noparent.recs # 0 THEN "recorded-without-local-parent"
   ELSE IF Len(own) # c.spans.own
-       THEN IF c.kind = "atrait" /\ c.naming \in {"default", "default_f"} /\ Len(other) = c.spans.own THEN "span-name-async-trait" ELSE "span-count-or-name"
+       THEN IF c.kind \in {"atrait", "atrait_eop"} /\ c.naming \in {"default", "default_f"} /\ Len(other) = c.spans.own THEN "span-name-async-trait" ELSE "span-count-or-name"
   ELSE IF \E k \in DOMAIN own : own[k].parent # "root" THEN "span-parent"
   ELSE IF \E k \in DOMAIN own : [j \in DOMAIN own[k].props |-> <<own[k].props[j][1], own[k].props[j][2]>>]
                                    # [j \in DOMAIN o.want_props |-> <<o.want_props[j][1], o.want_props[j][2]>>] THEN "span-properties"
